@@ -270,6 +270,8 @@ def gen_spec(rng, pid):
         ops = [('rpc', rng.random() < 0.6) for _ in range(rng.choice([1, 1, 2]))]
         if pid == 'C03' and rng.random() < 0.25:
             ops = [('rpc_ff',) if (op[1] is False and rng.random() < 0.6) else op for op in ops]
+        if pid in ('C03', 'C04') and rng.random() < 0.2:
+            ops.insert(rng.randrange(len(ops) + 1), ('refused',))     # a locally refused operation leaves nothing behind
         clients.append(ops)
     nreq = sum(1 for o in clients for op in o if op[0] in ('rpc', 'rpc_ff'))
     order = list(range(nreq)); rng.shuffle(order)
